@@ -184,6 +184,16 @@ VERUS_UNITS = {
             ('(!alive0.contains(entity) ==> (tr1 =~= tr0 && c1.despawn_tab() =~= c0.despawn_tab()))', '(!alive0.contains(entity) ==> (tr1 =~= tr0 && tab_of(c1.despawn_tab(), entity) == tab_of(c0.despawn_tab(), entity).push(handle)))', 'register_despawn_scope'),
         ],
     },
+    'despawn_dispatch': {
+        'template': 'despawn_dispatch.rs.tpl',
+        'owners': [(r'ReactCache::schedule_despawn_reactions$', ['C01', 'C07']), (r'ReactorHandle::sys_command$', ['C01'])],
+        'negctl': [
+            # the list must be consumed by its first report
+            ('else if tab.dom().contains(p[0]) { cmds_for(p[0], tab[p[0]]@) + all_cmds(p.skip(1), tab.remove(p[0])) }', 'else if tab.dom().contains(p[0]) { cmds_for(p[0], tab[p[0]]@) + all_cmds(p.skip(1), tab) }', 'ReactCache::schedule_despawn_reactions'),
+            # the command must carry the handle itself
+            ('ReactionCommand::Despawn { reaction_source: e, reactor: h.sys(), handle: h })', 'ReactionCommand::Despawn { reaction_source: e, reactor: h.sys(), handle: ReactorHandle::Persistent(h.sys()) })', 'ReactCache::schedule_despawn_reactions'),
+        ],
+    },
     'dispatch': {
         'template': 'dispatch.rs.tpl',
         'owners': [(r'schedule_entity_reaction_impl$', ['C01', 'C14']), (r'ReactCache::schedule_(insertion|mutation)_reaction$', ['C01', 'C14'])],
@@ -249,7 +259,7 @@ ENVNOTE = 'Kani tier runs the real crate against the assumed Bevy of /verif/env 
 
 PROPS = {
     'C01': dict(category='other', design_ref='DESIGN.md 5/C01',
-        text='Registration tables as abstract maps key -> list: Verus proves on the verbatim text, for tables and lists of ANY size, that each of the 7 ReactCache::register_* functions appends exactly one handle to exactly the list named by (kind, key) and leaves every other list of every table unchanged, and that schedule_resource_mutation_reaction / schedule_broadcast_reaction queue exactly one command per entry of the trigger type\'s list, in order, with the right reactor id (and nothing for an empty list). schedule_insertion_reaction / schedule_mutation_reaction / schedule_entity_reaction_impl are likewise proved for per-entity and type-wide lists of any length (Verus, verbatim, against an assumed sequence stand-in for Vec and the assumed contract of EntityReactors::iter_rtype). Kani discharges on the real code, for bounded shapes, the functions outside Verus\' subset: EntityReactors::{insert,remove,count,iter_rtype,iter_reactors} (lists L<=3, all contents), schedule_entity_event_reaction, a restatement of ReactCache::revoke_* on the compiled code (the five revoke_* themselves are proved by Verus for lists of any length: neighbours keep their entries), and restates schedule_{insertion,mutation}_reaction on the compiled code (entity-scoped + type-wide listeners, wrong-kind / wrong-type entries present and not fired). Lemma L3 (Verus) lifts register/revoke contracts to arbitrary histories on one key. Level other: the schedule_* functions with Query access are bounded stand-ins; that Bevy applies the scheduling command in-line is runner/queue semantics (C02/C09, not applicable).',
+        text='Registration tables as abstract maps key -> list: Verus proves on the verbatim text, for tables and lists of ANY size, that each of the 7 ReactCache::register_* functions appends exactly one handle to exactly the list named by (kind, key) and leaves every other list of every table unchanged, and that schedule_resource_mutation_reaction / schedule_broadcast_reaction queue exactly one command per entry of the trigger type\'s list, in order, with the right reactor id (and nothing for an empty list). schedule_insertion_reaction / schedule_mutation_reaction / schedule_entity_reaction_impl are likewise proved for per-entity and type-wide lists of any length (Verus, verbatim, against an assumed sequence stand-in for Vec and the assumed contract of EntityReactors::iter_rtype). schedule_despawn_reactions (Verus, verbatim, any number of reports / lists of any length): one Despawn command per handle registered for a reported entity, in list order, the list consumed by the first report, nothing for entities without list. Kani discharges on the real code, for bounded shapes, the functions outside Verus\' subset: EntityReactors::{insert,remove,count,iter_rtype,iter_reactors} (lists L<=3, all contents), schedule_entity_event_reaction, a restatement of ReactCache::revoke_* on the compiled code (the five revoke_* themselves are proved by Verus for lists of any length: neighbours keep their entries), and restates schedule_{insertion,mutation}_reaction on the compiled code (entity-scoped + type-wide listeners, wrong-kind / wrong-type entries present and not fired). Lemma L3 (Verus) lifts register/revoke contracts to arbitrary histories on one key. Level other: the schedule_* functions with Query access are bounded stand-ins; that Bevy applies the scheduling command in-line is runner/queue semantics (C02/C09, not applicable).',
         note=ENVNOTE + '; maps = finite partial maps (hashing not modelled); Vec as an assumed sequence stand-in in units cache_revoke / dispatch; tuple trigger bundles (macro-generated) not under contract',
         explanation='register_* x7, revoke_* x5, 4 schedule fns and the 11 trigger types proved unbounded (Verus, verbatim); EntityReactors and entity-event dispatch bounded (Kani); history lemma L3'),
     'C03': dict(category='other', design_ref='DESIGN.md 5/C03',
@@ -269,7 +279,7 @@ PROPS = {
         note=ENVNOTE + '; the assumed effects of the callees in unit `revoke` are uninterpreted functions - their meaning is fixed by the Kani contracts, the correspondence is by review',
         explanation='token walk and the five type-wide revoke_* proved unbounded (Verus); per-entity removal and a compiled-code restatement bounded (Kani); history lemma L3'),
     'C07': dict(category='other', design_ref='DESIGN.md 5/C07 + 9.5',
-        text='Handle-balance contracts on the real code: ReactorMode::prepare gives a persistent reactor a plain handle (never ref-counted, hence never collected) and every other mode a signal for exactly the reactor\'s entity (Verus, verbatim); each of the 11 trigger types registers exactly ONE clone of the handle per trigger into the table its reactor_type() names, none for a despawn trigger on a dead entity, and register_entity_reactor stores none when the entity is gone (Verus, verbatim, generic); register_* store exactly the handle they are given (Verus, unbounded); revoke_* drop exactly one entry of the revoked reactor and no neighbour (Verus, any length; Kani restatement L<=4), EntityReactors::remove exactly the (type, id) matches (Kani, L<=4); register_reactors turns the mode into ONE handle and registers the whole bundle with it (Verus); the register_despawn_reactor system (closure body verbatim, lifted by extraction rule 16) stores the handle iff the target is still alive when the command is applied, never replaces an existing DespawnTracker (which would report a despawn that did not happen) and wires a new tracker to this cache\'s despawn channel (Verus); DespawnAccessTracker holds the in-flight handle from start to end and end drops it (Verus); the signal itself is an exact reference count: the reactor\'s id is sent to the despawner exactly once, at the drop of the last clone (Kani on real std::sync::Arc + the assumed channel, 1..3 clones; lemma L4). One collection (Verus, garbage_collect_entities verbatim modulo extraction rule 15; unit gc): the request channel is EMPTY on return - the collector never stops early - and every entity whose request was pending on entry is gone on return, so a reactor whose last handle has disappeared is despawned by the first collection that follows; requests for entities that are already gone are skipped. Level other: schedule_despawn_reactions and WHEN the runner collects are NOT discharged (CBMC cost / whole-tree histories); that despawning the entity drops its system state and captures is Bevy\'s component drop (assumed).',
+        text='Handle-balance contracts on the real code: ReactorMode::prepare gives a persistent reactor a plain handle (never ref-counted, hence never collected) and every other mode a signal for exactly the reactor\'s entity (Verus, verbatim); each of the 11 trigger types registers exactly ONE clone of the handle per trigger into the table its reactor_type() names, none for a despawn trigger on a dead entity, and register_entity_reactor stores none when the entity is gone (Verus, verbatim, generic); register_* store exactly the handle they are given (Verus, unbounded); revoke_* drop exactly one entry of the revoked reactor and no neighbour (Verus, any length; Kani restatement L<=4), EntityReactors::remove exactly the (type, id) matches (Kani, L<=4); register_reactors turns the mode into ONE handle and registers the whole bundle with it (Verus); the register_despawn_reactor system (closure body verbatim, lifted by extraction rule 16) stores the handle iff the target is still alive when the command is applied, never replaces an existing DespawnTracker (which would report a despawn that did not happen) and wires a new tracker to this cache\'s despawn channel (Verus); schedule_despawn_reactions moves every handle of a despawned entity\'s list INTO its Despawn command and removes the list (Verus, verbatim, unbounded), DespawnAccessTracker holds the in-flight handle from start to end and end drops it (Verus) - so the reactor outlives its pending despawn reaction and not longer; the signal itself is an exact reference count: the reactor\'s id is sent to the despawner exactly once, at the drop of the last clone (Kani on real std::sync::Arc + the assumed channel, 1..3 clones; lemma L4). One collection (Verus, garbage_collect_entities verbatim modulo extraction rule 15; unit gc): the request channel is EMPTY on return - the collector never stops early - and every entity whose request was pending on entry is gone on return, so a reactor whose last handle has disappeared is despawned by the first collection that follows; requests for entities that are already gone are skipped. Level other: WHEN the runner collects / polls is NOT discharged (whole-tree histories); that despawning the entity drops its system state and captures is Bevy\'s component drop (assumed).',
         note=ENVNOTE + '; Arc/channel: sequential semantics; in unit gc the channel receiver and World::resource are given exclusive (&mut) access in place of crossbeam\'s interior mutability',
         explanation='one clone per effective registration, one drop per revocation, in-flight handle dropped at end, exact ref-count of the signal (Kani, bounded), one collection drains every pending request (Verus, unbounded); collection points in the runner not covered'),
     'C10': dict(category='other', design_ref='DESIGN.md 5/C10 + 9.5',
